@@ -652,6 +652,44 @@ for i in range(nL):
             chk.count(huber_tau="just above max|sample|, non-zero mean")
     exec_lruns(spec, runs, "L-" + kind)
 
+# TfmResult.res of the contact pipeline on HALF-MATRIX frames (default weights: 1 for pulse-echo, 2 otherwise) with the
+# transmitter/receiver indices stored in any integer type that can hold them: the definition, evaluated directly here
+for i_ in range(8 if Q else 60):
+    nel_ = int(rng.choice([3, 8, 16, 17, 20, 24, 33]))
+    idt_ = [np.int64, np.uint8, np.int8, np.uint16, np.int16, np.int32, np.uint32][i_ % 7]
+    xs_ = (np.arange(nel_) - (nel_ - 1) / 2) * float(rng.uniform(0.4e-3, 0.9e-3))
+    probe_ = arim.Probe(np.column_stack([xs_, np.zeros(nel_), np.zeros(nel_)]), 5e6)
+    tx_, rx_ = arim.ut.hmc(nel_)
+    if rng.random() < 0.5:
+        keep_ = rng.permutation(len(tx_))[: int(rng.integers(max(2, len(tx_) // 2), len(tx_) + 1))]
+        tx_, rx_ = tx_[keep_], rx_[keep_]
+    time_ = arim.Time(0.0, 1 / 50e6, 1200)
+    tt_ = rng.normal(size=(len(tx_), len(time_)))
+    frame_ = arim.Frame(tt_, time_, tx_.astype(idt_), rx_.astype(idt_), probe_, None)
+    grid_ = arim.Grid(-4e-3, 4e-3, 0.0, 0.0, 12e-3, 20e-3, 2e-3)
+    vel_ = 6300.0
+    got_ = np.asarray(tfm.contact_tfm(frame_, grid_, vel_, interpolation="linear").res)
+    pts_ = grid_.to_1d_points().coords
+    tau_ = np.linalg.norm(pts_[:, None, :] - probe_.locations.coords[None, :, :], axis=-1) / vel_
+    pairs_ = set(zip(tx_.tolist(), rx_.tolist()))
+    # default weights: 2 for a timetrace whose reciprocal is not in the frame, 1 otherwise (pulse-echo included)
+    w_ = np.array([1.0 if (a == b or (b, a) in pairs_) else 2.0 for a, b in zip(tx_.tolist(), rx_.tolist())])
+    loc_ = (tau_[:, tx_] + tau_[:, rx_] - time_.start) / time_.step
+    left_ = np.floor(loc_).astype(int)
+    assert np.all((left_ >= 0) & (left_ + 1 < len(time_)))
+    fr_ = loc_ - left_
+    k_ = np.arange(len(tx_))[None, :]
+    want_ = (np.sum(w_[None, :] * ((1 - fr_) * tt_[k_, left_] + fr_ * tt_[k_, left_ + 1]), axis=1) / len(tx_)).reshape(grid_.shape)
+    evaluations += 1
+    chk.count(contact_hmc_index_dtype=np.dtype(idt_).name)
+    if not np.allclose(got_, want_, rtol=0, atol=1e-9 * float(np.max(np.abs(want_)))):
+        chk.violation("contact-hmc:index-dtype", f"contact_tfm on a half-matrix frame of {nel_} elements whose tx/rx are stored as "
+                      f"{np.dtype(idt_).name} is not (1/N) sum weight * g_k(tau_tx + tau_rx) with the default weights",
+                      dict(numelements=nel_, index_dtype=np.dtype(idt_).name, tx=tx_, rx=rx_, element_x=xs_, velocity=vel_,
+                           time=[0.0, 1 / 50e6, 1200], weights_expected=w_, max_abs_deviation=float(np.max(np.abs(got_ - want_))),
+                           timetraces="rng.normal, regenerated by seed and tier"), failing_input_found=True)
+        break
+
 # complex timetrace weights (a per-channel gain-and-phase calibration) on REAL samples: the image is linear in the weights,
 # I(w_re + i w_im) = I(w_re) + i I(w_im), for every kernel of the mean family
 for i_ in range(6 if Q else 60):
